@@ -66,6 +66,11 @@ def c05(ctx):
         out += fam_lookup.fam_lkx(ctx, "n", 5, limit_states=150000)
     ctx.report.exhaustive = True
     ctx.report.notes.append("exhaustive for the joint state spaces listed under correspondence_families.LKX; LK histories are sampled")
+    # the property's own observation point: indices of TermEncoder (with its per-statement bound on the
+    # entries one statement may touch) fed to the Decoder, tables smaller than and just as large as one
+    # statement's needs
+    out += en_sweep(ctx, ctx.n(120, 1000), fits=False, _no_search=True)
+    out += en_sweep(ctx, ctx.n(60, 500), churn=True, _no_search=True)
     if out and not any(d.get("property_violation") for d in out):
         # each single use still resolves, yet the tables no longer behave like the model's: look for the
         # damage where the property also observes it -- indices of TermEncoder fed to the Decoder, whole statements
@@ -76,6 +81,7 @@ def c05(ctx):
 # ------------------------------------------------------------------ C01 / C03
 def en_sweep(ctx, n: int, **kw) -> list:
     out = []
+    no_search = kw.pop("_no_search", False)
     for _ in range(n):
         case = fam_encode.gen_generic_case(ctx, None, **kw)
         ctx.report.evaluations += 1
@@ -91,7 +97,7 @@ def en_sweep(ctx, n: int, **kw) -> list:
             ctx.report.sample({"family": "EN", "cfg": cfg.as_json(), "stmts": [core_stmt_tok(s) for s in case["stmts"]][:3], "agreed": d is None})
         if d:
             out.append(d)
-    if out and not any(d.get("property_violation") for d in out) and not kw.get("_no_search"):
+    if out and not any(d.get("property_violation") for d in out) and not no_search:
         out += search_failing_input(ctx, kw.get("entry"))
     return out
 
@@ -178,6 +184,7 @@ def ref_sweep(ctx, n: int, igs, modes, rdf11=False, **kw) -> list:
             ctx.report.count("PA/ref-encoder-overflow")
             continue
         made += 1
+        ctx.report.count(f"PA/stream re-uses an id pair for another IRI={st['enc'].pair_reuse > 0}")
         delim = ctx.rng.random() < 0.8
         data = refenc.frames_bytes(st["frames"], delim)
         bad = fam_parse.check_against_referee(ctx, data, st["events"])
@@ -214,6 +221,8 @@ def core_hx(b):
 def c04(ctx):
     out = ref_sweep(ctx, ctx.n(400, 8000), igs=("g",), modes=("flat", "grouped", "to_graph"))
     out += ref_sweep(ctx, ctx.n(250, 5000), igs=("g", "r"), modes=("flat", "grouped", "to_graph"), rdf11=True)
+    # ids at the top edge of full-size tables, few local names under many resident namespaces
+    out += ref_sweep(ctx, ctx.n(300, 3000), igs=("g",), modes=("flat",), churn=True, edge=True)
     out += external_streams(ctx)
     return out
 
